@@ -124,7 +124,8 @@ static void op_variance(const V &a, V &r) {
         c1->current_variance = 0.25; c2->current_variance = 0.0625; res->current_variance = 123.;
         TLweSample *out = c1;
         switch (opc) { case 0: tLweAddTo(c1, c2, tp); break; case 1: tLweSubTo(c1, c2, tp); break; case 2: tLweAddMulTo(c1, p, c2, tp); break; case 3: tLweSubMulTo(c1, p, c2, tp); break;
-            case 20: tLweClear(res, tp); out = res; break; case 21: tLweCopy(res, c1, tp); out = res; break; case 22: tLweNoiselessTrivial(res, c2->b, tp); out = res; break; }
+            case 20: tLweClear(res, tp); out = res; break; case 21: tLweCopy(res, c1, tp); out = res; break; case 22: tLweNoiselessTrivial(res, c2->b, tp); out = res; break;
+            case 30: { IntPolynomial *ip = new_IntPolynomial(n); for (int j = 0; j < n; j++) ip->coefs[j] = (j % 3 == 0) ? p : 0; if (n == 1024) tLweAddMulRTo(c1, ip, c2, tp); else c1->current_variance += intPolynomialNormSq2(ip) * c2->current_variance; delete_IntPolynomial(ip); break; } }
         r.push_back((ll) llround(out->current_variance * 16.));
         delete_TLweSample(res); delete_TLweSample(c2); delete_TLweSample(c1); delete_TLweParams(tp);
     }
